@@ -72,6 +72,23 @@ def handle (ws : List String) : String :=
     match k, pl old, pl new with
     | some k, some o, some n => if Resumption.checkSubgroup k o n then "ok" else "err"
     | _, _, _ => "bad-op"
+  | ["join", kind, old, new, ev, es, eg, ex, gv, gs, ge, gg, gx] =>
+    -- `ResumptionGroupBuilder::join` after the Welcome itself was processed: expected (version, suite, group id, extensions)
+    -- against what the joined group has (version, suite, epoch, group id, extensions)
+    let k : Option Resumption.Kind := match kind with | "reinit" => some .reinit | "branch" => some .branch | _ => none
+    let pl := fun (s : String) => if s = "-" then some [] else (s.splitOn ",").mapM String.toNat?
+    match k, pl old, pl new, [ev, es, eg, ex, gv, gs, ge, gg, gx].mapM String.toNat? with
+    | some k, some o, some n, some [ev, es, eg, ex, gv, gs, ge, gg, gx] =>
+      match Resumption.joinChecks k o n { version := ev, suite := es, epoch := 1, groupId := eg, extensions := ex }
+          { version := gv, suite := gs, epoch := ge, groupId := gg, extensions := gx } with
+      | .ok _ => "ok"
+      | .error .notASubgroup => "NotASubgroup"
+      | .error .protocolVersionMismatch => "ProtocolVersionMismatch"
+      | .error .cipherSuiteMismatch => "CipherSuiteMismatch"
+      | .error .initialEpochNotOne => "InitialEpochNotOne"
+      | .error .groupIdMismatch => "GroupIdMismatch"
+      | .error .reInitExtensionsMismatch => "ReInitExtensionsMismatch"
+    | _, _, _, _ => "bad-op"
   | ["unfilter", bits, n] =>
     -- the un-filtering loop of `validate_update_path`: filter flags of the sender's direct path, number of nodes sent
     let fs : Option (List Bool) := if bits = "-" then some [] else bits.toList.mapM (fun c => if c = '1' then some true else if c = '0' then some false else none)
